@@ -272,6 +272,9 @@ def r2_labels(ck, prog, run):
                            allowed_guards=[])
             if s is None:
                 continue
+            ck.same("R2", f_st.where, "stft operand " + tag, "the transform leaves the signal it is given untouched (no in-place operation reaches its buffer through "
+                    "a reshape/swapaxes view): transforming it again gives the same result", str(z.attrs["_data"].expr) == "D_z",
+                    found=str(z.attrs["_data"].expr)[:120], nontrivial=True)
             lz = ev.getattr(z, "channel_freqs", FR())
             ls = ck.attempt("R2", f_st.where, "stft(z).channel_freqs " + tag, "evaluates", lambda: ev.getattr(s, "channel_freqs", FR()), ev=ev)
             if ls is None:
@@ -286,10 +289,15 @@ def r2_labels(ck, prog, run):
                       "label of output channel c*P + k == label_c + (k - floor(P/2)) * sample_rate/P (the true frequency of that fftshift-ed bin)",
                       got, true)
             ev2 = ck.evaluator()
+            s_before = str(s.attrs["_data"].expr) if isinstance(s.attrs.get("_data"), Num) else None
             r = ck.attempt("R2", f_is.where, "istft(stft(z)) labels " + tag, "evaluates", lambda: ev2.call(f_is, [s], {"nperseg": Num(P)}), ev=ev2,
                            allowed_guards=[])
             if r is None:
                 continue
+            if s_before is not None:
+                after = str(s.attrs["_data"].expr) if isinstance(s.attrs.get("_data"), Num) else "?"
+                ck.same("R2", f_is.where, "istft operand " + tag, "the inverse leaves the STFT signal it is given untouched: inverting the same STFT twice gives the same signal",
+                        after == s_before, found=after[:140], nontrivial=True)
             lr = ck.attempt("R2", f_is.where, "istft(stft(z)).channel_freqs " + tag, "evaluates", lambda: ev2.getattr(r, "channel_freqs", FR()), ev=ev2)
             if lr is None:
                 continue
